@@ -78,7 +78,7 @@ def cases(draw):
         c["perm"] = list(draw(st.permutations(list(range(nd)))))
         c["ddof"] = draw(st.sampled_from([0, 0, 1]))
     elif fam == "pow_special":
-        c["exp"] = draw(st.sampled_from([1, 2, 1.0, 2.0]))
+        c["exp"] = draw(st.sampled_from([1, 2, 1.0, 2.0, 1, 2, 1.0, 2.0, 0.5, 3, 0, 3.0, 1.5]))  # (short-cut candidates besides 1 and 2)
         c["expkind"] = draw(st.sampled_from(["py", "np0d", "npscalar"]))
     elif fam == "nodiff":
         c["op"] = draw(st.sampled_from(["isnan", "isfinite", "isinf", "signbit", "logical_not", "logical_and", "logical_or",
